@@ -184,6 +184,12 @@ func (h *hist) peerSetOracle(a *hx.Node) {
 			}
 		}
 	}
+	// measured coverage of this oracle (Z line): evaluations, blocks replayed, largest table seen
+	h.actions["c10-evaluations"]++
+	h.actions["c10-blocks-replayed"] += len(a.Final)
+	if len(table) > h.actions["c10-max-table-entries"] {
+		h.actions["c10-max-table-entries"] = len(table)
+	}
 	all, _ := a.Store.GetAllPeerSets()
 	got := map[int][]int{}
 	for r, ps := range all {
@@ -254,6 +260,11 @@ func (h *hist) finalOracles() {
 		h.peerSetOracle(a)
 		if !a.Faulty {
 			h.conservation(a)
+		}
+	}
+	if h.cfg.dyn {
+		for _, a := range h.nodes {
+			h.c10DirectProbe(a)
 		}
 	}
 }
